@@ -128,6 +128,18 @@ CHECKS = {
             "14 write targets x 12 result variables x request form x switch scenario on one template; three steps; in_service "
             "profiles not enumerated",
             "TLC-checked cache-coherence model; TLC-enumerated configurations replayed on run_timeseries vs fresh power flows", "§4 C12"),
+    "C06": ("model_checking",
+            "SolversDef.tla classifies network classes (1-2 islands of a 4-bus template: radial / 1 loop / 2 loops, slack kind and "
+            "position, PV gen, second slack, phase-shifting transformers, load level), transcribes the option resolution / dispatch / "
+            "back-end selection of runpp and an index model of the bfsw BIBC/BCBV construction and its angle post-processing, and "
+            "derives the outcome set the property allows per solver run (BfswApplicable, BfswMustSolve, Comparable). Solvers.tla is "
+            "the state machine fresh -> classify -> solve(s); every class x calculate_voltage_angles is run on the real code with 13 "
+            "solver configurations (iwamoto_nr, bfsw, gs, fdbx, fdxb, lightsim2grid, numba off, init dc/results/flat ...) and TLC "
+            "decides: a returned result equals the NR reference, bfsw never dies with an internal error where applicable, bfsw solves "
+            "where it must; conformance of options / call traces with the model is checked too (divergence).",
+            "'weakly meshed' read as <= 1 loop per island; nr flat start not compared behind 150 degree transformers with angles "
+            "(documented low-voltage solution); LoadflowNotConverged outside BfswMustSolve counted, not flagged",
+            "TLC-enumerated network classes x solver configurations run on the implementation; agreement decided by TLC", "§5 C06"),
 }
 
 NOT_APPLICABLE = {
